@@ -12,6 +12,9 @@ BIG = [2 ** 31 - 1, 2 ** 31, 2 ** 31 + 1, 2 ** 32 - 1, 2 ** 32, 2 ** 63 - 1, 2 *
        10 ** 19, 10 ** 20, 10 ** 25, 127, 128, 129, 255, 256]
 
 
+RW = ["i64", "i64", "i64", "i32", "u64", "i8"]     # representation weights for the string generators
+
+
 def year_str(rng, y, loose=False):
     if loose and rng.random() < 0.5:
         return str(y) if y >= 0 else "-" + str(-y)
@@ -247,7 +250,7 @@ def gen_cases(rng, tier):
     n_dur = 150000 if tier == "quick" else 3000000
     risky, plain = [], []
     for _ in range(n_tp):
-        p = rng.choice(K.PRECS); r = rng.choice(K.REPS)
+        p = rng.choice(K.PRECS); r = rng.choice(RW)
         s = gen_tp(rng)
         if s is None:
             s = near_limit_instant(rng, p, r)
@@ -270,7 +273,7 @@ def gen_cases(rng, tier):
             plain.append("rt.parse %s" % (b.hex() if b else "-"))
             plain.append("tm.parse %s" % (b.hex() if b else "-"))
     for _ in range(n_dur):
-        p = rng.choice(K.PRECS); r = rng.choice(K.REPS)
+        p = rng.choice(K.PRECS); r = rng.choice(RW)
         s = gen_dur(rng, p, r)
         b = s.encode("latin-1")
         if rng.random() < 0.1:
